@@ -122,7 +122,8 @@ def gen_case(draw):
                   'sumtim': draw(st.one_of(st.just(0.0), finite(0.0, 1e15), st.just(1.5e100)))}
     return {'k': 'gen', 'blocks': blocks, 'nv': nv, 'pass_nv': (nv > 4) or draw(st.booleans()),
             'check': check, 'toughreact': toughreact, 'timing': timing, 'reset': draw(st.booleans()),
-            'style': draw(st.sampled_from(['E', 'D', 'e']))}
+            'style': draw(st.sampled_from(['E', 'D', 'e'])),
+            'reuse': draw(st.sampled_from([None, None, 'TOUGH2', 'TOUGHREACT']))}
 
 
 def shipped_files():
@@ -231,13 +232,28 @@ def run_gen(case, R):
     # leg 1: lib -> lib
     with R.lib('write'):
         inc = build(case); inc.write(f1, reset=case['reset'])
+    reuse = case.get('reuse')
     with R.lib('read'):
-        r = t2incons.t2incon(f1, num_variables=nvarg, check_blocknames=case['check'])
+        if reuse:
+            # call history: the reading object has already read a file of the OTHER flavour (with timing);
+            # nothing of that earlier file may survive in what it reports now
+            R.label('history:reader-reused-after-' + reuse)
+            f0 = os.path.join(R.tmp, 'other.incon')
+            o = t2incons.t2incon()
+            perm = __import__('numpy').array([1e-15, 2e-15, 3e-15]) if reuse == 'TOUGHREACT' else None
+            o.add_incon(t2incons.t2blockincon([1.0e5, 20.0, 0.5], 'zzz99', 0.1, perm))
+            o.simulator = reuse
+            o.timing = {'kcyc': 7, 'iter': 3, 'nm': 1, 'tstart': 0.0, 'sumtim': 86400.0}
+            o.write(f0, reset=False)
+            r = t2incons.t2incon(f0)
+            r.read(f1, num_variables=nvarg, check_blocknames=case['check'])
+        else:
+            r = t2incons.t2incon(f1, num_variables=nvarg, check_blocknames=case['check'])
     compare_blocks(R, 'libread', r[0:len(exp) + 5], exp)
     R.check(r.blocklist == [e['name'] for e in exp], 'libread:order', 'block order / names differ')
     if blocks:
         sim = 'TOUGHREACT' if case['toughreact'] else 'TOUGH2'
-        R.check(r.simulator == sim, 'libread:simulator', 'simulator %r expected %r' % (r.simulator, sim))
+        R.check(r.simulator == sim, 'libread:simulator' + (':reused-reader' if reuse else ''), 'simulator %r expected %r' % (r.simulator, sim))
     texp = None
     if keep:
         texp = dict(case['timing'])
